@@ -86,6 +86,7 @@ def check(run):
     run.floor("F-UNIT", ok + bad, 20)
     # a populate function may store the raw [0,360) longitude if EVERY caller wraps it right after populating
     _accept_wrap_by_callers(run, P)
+    _same_value_two_units(run, P)
     # centres pass through _normalize_xyz on every return
     for fn in ("_construct_face_centroids", "_construct_edge_centroids"):
         f = P.func(f"uxarray/grid/coordinates.py:{fn}")
@@ -140,3 +141,44 @@ def check(run):
         run.holds("F-PATH/lon-wrap", c, where(w), "node_lon, edge_lon, face_lon wrapped by (v+180)%360-180")
     else:
         run.violation("F-PATH/lon-wrap", c, where(w), f"longitude wrap covers {sorted(names)} (wrap expression found: {wrap}); every *_lon variable must be wrapped to [-180,180]")
+
+
+RAD_SINKS = {"_lonlat_rad_to_xyz": (0, 1), "sin": (0,), "cos": (0,), "tan": (0,)}
+CONVERTERS = {"deg2rad", "rad2deg", "radians", "degrees"}
+
+
+def _same_value_two_units(run, P):
+    """Belief contradiction that needs no unit inference: one local value is stored under a degree-valued schema
+    variable (*_lon/*_lat) AND handed unconverted to a radian sink.  One of the two uses is wrong whatever the unit is."""
+    from ..astutil import LocalDefs, str_const
+    n = 0
+    for f in P.all_functions():
+        if f.module.relpath not in ("uxarray/grid/coordinates.py",):
+            continue
+        defs = LocalDefs(f.node)
+        stored = {}  # local name -> store stmt (as data of a *_lon/*_lat variable)
+        to_rad = {}
+        for st in iter_stmts(f.node.body):
+            if isinstance(st, ast.Assign) and isinstance(st.targets[0], ast.Subscript):
+                key = str_const(st.targets[0].slice)
+                if key and key.endswith(("_lon", "_lat")) and isinstance(st.value, ast.Call) and (dotted(st.value.func) or [""])[-1] == "DataArray":
+                    data = st.value.args[0] if st.value.args else next((k.value for k in st.value.keywords if k.arg == "data"), None)
+                    if isinstance(data, ast.Name):
+                        stored[data.id] = (st, key)
+            for c in ast.walk(st):
+                if isinstance(c, ast.Call):
+                    nm = (dotted(c.func) or [""])[-1]
+                    if nm in RAD_SINKS:
+                        for i in RAD_SINKS[nm]:
+                            if i < len(c.args) and isinstance(c.args[i], ast.Name):
+                                to_rad.setdefault(c.args[i].id, (c, nm))
+        for name in sorted(set(stored) & set(to_rad)):
+            converted = any(isinstance(c, ast.Call) and (dotted(c.func) or [""])[-1] in CONVERTERS for v, _i, _l in defs.defs.get(name, []) for c in ast.walk(v))
+            if converted:
+                continue
+            n += 1
+            st, key = stored[name]
+            call, sink = to_rad[name]
+            run.violation("UNIT/one-value-two-units", f"{f.key}:value[{name}]", where(f, call),
+                          f"'{name}' is stored under {key} (degrees by the schema) and is also passed unconverted to {sink}(...) (radians): one of the two uses has the wrong unit")
+    run.stats["one_value_two_units_candidates"] = n
